@@ -85,6 +85,71 @@ Proof.
   - apply Z.ltb_ge in E2. symmetry. apply nth_error_None. lia.
 Qed.
 
+Lemma nth_error_rev : forall (l : list Z) k, (k < length l)%nat ->
+  nth_error (rev l) k = nth_error l (length l - 1 - k).
+Proof.
+  induction l as [|x r IH]; intros k H; [cbn in H; lia|].
+  cbn [rev length] in *. destruct (Nat.eq_dec k (length r)) as [->|Ne].
+  - rewrite nth_error_app2 by (rewrite rev_length; lia). rewrite rev_length, Nat.sub_diag.
+    replace (S (length r) - 1 - length r)%nat with O by lia. reflexivity.
+  - rewrite nth_error_app1 by (rewrite rev_length; lia). rewrite IH by lia.
+    replace (S (length r) - 1 - k)%nat with (S (length r - 1 - k)) by lia. reflexivity.
+Qed.
+
+(* L[-(k+1)] *)
+Lemma py_index_neg : forall l k, py_index l (- Z.of_nat k - 1) = nth_error (rev l) k.
+Proof.
+  intros l k. unfold py_index, zlen.
+  destruct (- Z.of_nat k - 1 <? 0) eqn:E; [|apply Z.ltb_ge in E; lia].
+  destruct (Nat.lt_ge_cases k (length l)) as [H|H].
+  - destruct (0 <=? - Z.of_nat k - 1 + Z.of_nat (length l)) eqn:E1; [|apply Z.leb_gt in E1; lia].
+    destruct (- Z.of_nat k - 1 + Z.of_nat (length l) <? Z.of_nat (length l)) eqn:E2;
+      [|apply Z.ltb_ge in E2; lia].
+    cbn [andb]. rewrite nth_error_rev by exact H. f_equal. lia.
+  - destruct (0 <=? - Z.of_nat k - 1 + Z.of_nat (length l)) eqn:E1; [apply Z.leb_le in E1; lia|].
+    cbn [andb]. symmetry. apply nth_error_None. rewrite rev_length. lia.
+Qed.
+
+(* L[:k] *)
+Lemma islice_go_step1 : forall l c s, c <= s ->
+  islice_go l c c (Some s) 1 = firstn (Z.to_nat (s - c)) l.
+Proof.
+  induction l as [|x r IH]; intros c s H.
+  - rewrite firstn_nil. reflexivity.
+  - cbn [islice_go]. rewrite Z.ltb_irrefl. destruct (s <=? c) eqn:E.
+    + apply Z.leb_le in E. replace (s - c) with 0 by lia. reflexivity.
+    + apply Z.leb_gt in E. destruct (s <? c + 1) eqn:E2; [apply Z.ltb_lt in E2; lia|].
+      rewrite IH by lia. replace (Z.to_nat (s - c)) with (S (Z.to_nat (s - (c + 1)))) by lia.
+      reflexivity.
+Qed.
+
+Lemma py_slice_to : forall l k, py_slice l None (Some (Z.of_nat k)) None = Some (firstn k l).
+Proof.
+  intros l k. rewrite <- islice_correct;
+    [| reflexivity | cbn [isneg]; apply Z.ltb_ge; lia | reflexivity].
+  unfold islice. cbn [Z.eqb].
+  rewrite islice_go_step1 by lia. rewrite Z.sub_0_r, Nat2Z.id. reflexivity.
+Qed.
+
+(* xafter: the consumer stops right after the (count+1)-th match; the first `count` matches of what it
+   saw are the first `count` matches of the whole sequence *)
+Lemma xafter_consume : forall x c inc rest seen,
+  firstn (Z.to_nat c) (filter (reached x inc) (consume_from (OXafter x (Some c) inc) seen rest)) =
+  firstn (Z.to_nat c) (filter (reached x inc) (seen ++ rest)).
+Proof.
+  intros x c inc. induction rest as [|y r IH]; intros seen.
+  - rewrite consume_from_nil, app_nil_r. reflexivity.
+  - destruct (wants (OXafter x (Some c) inc) seen) eqn:W.
+    + rewrite consume_from_step by exact W. rewrite IH. rewrite <- app_assoc. reflexivity.
+    + rewrite consume_from_stop by exact W. cbn [wants] in W. apply Z.leb_gt in W.
+      rewrite filter_app. rewrite firstn_app.
+      replace (Z.to_nat c - length (filter (reached x inc) seen))%nat with O by lia.
+      cbn [firstn]. rewrite app_nil_r. reflexivity.
+Qed.
+
+Lemma xafter_consume_none : forall x inc l, consume (OXafter x None inc) l = l.
+Proof. intros. unfold consume. rewrite consume_from_all by reflexivity. reflexivity. Qed.
+
 (* C12's list-level reading of each operation *)
 Definition op_list_spec (o : op) (l : list Z) : outcome :=
   match o with
@@ -96,6 +161,14 @@ Definition op_list_spec (o : op) (l : list Z) : outcome :=
   | OBetween a b inc => Ret (filter (fun y => is_after a inc y && is_before b inc y) l)
   | OBefore x inc => ret_opt (last_opt (filter (is_before x inc) l))
   | OAfter x inc => ret_opt (hd_error (filter (is_after x inc) l))
+  | OSliceTo k => match py_slice l None (Some (Z.of_nat k)) None with
+                  | Some r => Ret r
+                  | None => Raise EValueError
+                  end
+  | ONegIdx k => match py_index l (- Z.of_nat k - 1) with Some v => Ret [v] | None => Raise EIndexError end
+  | OXafter x cnt inc =>
+      let f := filter (is_after x inc) l in
+      Ret (match cnt with None => f | Some c => firstn (Z.to_nat c) f end)
   end.
 
 Lemma of_opt_inj : forall a b, of_opt a = of_opt b -> a = b.
@@ -118,6 +191,13 @@ Proof.
   - rewrite spec_after_loop. cbn [op_list_spec]. f_equal.
     pose proof (after_correct false l x inc) as H. unfold after, spec_after in H.
     apply of_opt_inj in H. exact H.
+  - cbn [spec_result op_list_spec]. rewrite py_slice_to. reflexivity.
+  - cbn [spec_result op_list_spec]. rewrite py_index_neg. reflexivity.
+  - cbn [spec_result op_list_spec]. destruct cnt as [c|].
+    + cbn [result]. unfold consume. rewrite xafter_consume. cbn [app].
+      rewrite (filter_ext _ _ (reached_is_after x inc)). reflexivity.
+    + rewrite xafter_consume_none. cbn [result].
+      rewrite (filter_ext _ _ (reached_is_after x inc)). reflexivity.
 Qed.
 
 (* Query order / interleaving is irrelevant: on a cached rule, whatever other iterators and queries
@@ -130,4 +210,88 @@ Proof.
   intros seq ops sched t th Hi H Hd.
   rewrite (results_match_uncached seq ops sched t th Hi H Hd).
   rewrite (spec_result_list_level _ _ Hi). reflexivity.
+Qed.
+
+(* ------------------------------------------------------------------------------------------ *)
+(* Sanity theorems pinning the meaning of PyList.py_slice independently of the CPython comparison:
+   L[:] = L,  L[a:b] = firstn (b-a) (skipn a L)  for 0 <= a <= b. *)
+
+Lemma islice_go_all : forall l c, islice_go l c c None 1 = l.
+Proof.
+  induction l as [|x r IH]; intros c; [reflexivity|].
+  cbn [islice_go]. rewrite Z.ltb_irrefl. rewrite IH. reflexivity.
+Qed.
+
+Theorem py_slice_all : forall l, py_slice l None None None = Some l.
+Proof.
+  intros l. rewrite <- islice_correct by reflexivity. unfold islice. cbn [Z.eqb].
+  rewrite islice_go_all. reflexivity.
+Qed.
+
+Lemma islice_go_skip : forall l c a s, c <= a ->
+  islice_go l c a (Some s) 1 = islice_go (skipn (Z.to_nat (a - c)) l) a a (Some s) 1.
+Proof.
+  induction l as [|x r IH]; intros c a s H.
+  - rewrite skipn_nil. reflexivity.
+  - destruct (Z.eq_dec c a) as [->|Ne].
+    + rewrite Z.sub_diag. reflexivity.
+    + cbn [islice_go]. destruct (c <? a) eqn:E; [|apply Z.ltb_ge in E; lia].
+      rewrite IH by lia. replace (Z.to_nat (a - c)) with (S (Z.to_nat (a - (c + 1)))) by lia.
+      reflexivity.
+Qed.
+
+Theorem py_slice_ab : forall l a b, 0 <= a <= b ->
+  py_slice l (Some a) (Some b) None = Some (firstn (Z.to_nat (b - a)) (skipn (Z.to_nat a) l)).
+Proof.
+  intros l a b H. rewrite <- islice_correct;
+    [| cbn [isneg]; apply Z.ltb_ge; lia | cbn [isneg]; apply Z.ltb_ge; lia | reflexivity].
+  unfold islice. cbn [Z.eqb]. rewrite islice_go_skip by lia. rewrite islice_go_step1 by lia.
+  rewrite Z.sub_0_r. reflexivity.
+Qed.
+
+Example py_slice_sanity :
+  py_slice [1;2;3;4;5] None None (Some (-1)) = Some [5;4;3;2;1] /\
+  py_slice [1;2;3;4;5] (Some (-2)) None None = Some [4;5] /\
+  py_slice [1;2;3;4;5] None (Some (-1)) None = Some [1;2;3;4] /\
+  py_slice [1;2;3;4;5] (Some 4) (Some 0) (Some (-2)) = Some [5;3] /\
+  py_slice [1;2;3;4;5] (Some 0) (Some 0) None = Some [] /\
+  py_slice [1;2;3;4;5] None None (Some 0) = None /\
+  py_index [1;2;3] (-1) = Some 3 /\ py_index [1;2;3] (-4) = None /\ py_index [1;2;3] 3 = None.
+Proof. vm_compute. repeat split; reflexivity. Qed.
+
+(* L[::-1] = reversed L *)
+Lemma map_rev_nth : forall (l : list Z),
+  map (fun k => nth (length l - 1 - k) l 0) (seq 0 (length l)) = rev l.
+Proof.
+  induction l as [|x r IH]; [reflexivity|].
+  cbn [length rev]. rewrite seq_S, map_app. cbn [map plus]. f_equal.
+  - rewrite <- IH. apply map_ext_in. intros k Hk. apply in_seq in Hk.
+    replace (S (length r) - 1 - k)%nat with (S (length r - 1 - k)) by lia. reflexivity.
+  - replace (S (length r) - 1 - length r)%nat with O by lia. reflexivity.
+Qed.
+
+Theorem py_slice_rev : forall l, py_slice l None None (Some (-1)) = Some (rev l).
+Proof.
+  intros l. unfold py_slice, slice_indices, zlen. cbn [Z.eqb Z.ltb Z.compare].
+  f_equal. unfold slice_len. cbn [Z.ltb Z.compare Z.opp].
+  destruct (-1 <? Z.of_nat (length l) - 1) eqn:E.
+  - apply Z.ltb_lt in E. rewrite Z.div_1_r.
+    replace (Z.to_nat (Z.of_nat (length l) - 1 - -1 - 1 + 1)) with (length l) by lia.
+    rewrite <- map_rev_nth. apply map_ext_in. intros k Hk. apply in_seq in Hk. f_equal. lia.
+  - apply Z.ltb_ge in E. destruct l; [reflexivity | cbn [length] in E; lia].
+Qed.
+
+Theorem slice_meaning : forall l,
+  py_slice l None None None = Some l /\
+  (forall a b, 0 <= a <= b ->
+     py_slice l (Some a) (Some b) None = Some (firstn (Z.to_nat (b - a)) (skipn (Z.to_nat a) l))) /\
+  (forall k, py_slice l None (Some (Z.of_nat k)) None = Some (firstn k l)) /\
+  py_slice l None None (Some (-1)) = Some (rev l) /\
+  py_slice l None None (Some 0) = None /\
+  (forall k, py_index l (- Z.of_nat k - 1) = nth_error (rev l) k) /\
+  (forall k, py_index l (Z.of_nat k) = nth_error l k).
+Proof.
+  intros l. split; [apply py_slice_all|]. split; [apply py_slice_ab|]. split; [apply py_slice_to|].
+  split; [apply py_slice_rev|]. split; [reflexivity|].
+  split; [apply py_index_neg | apply py_index_nat].
 Qed.
